@@ -492,6 +492,10 @@ def class_attr_is_constant_table(cls, attr, expr):
 # *mismatch* found downstream is not evidence of a defect: the driver downgrades violations of a
 # run that recorded gaps to "cannot conclude".
 GAP_EVENTS = []
+import time as _time
+DEADLINE = [float('inf')]  # wall-clock safety net, set by the driver per run
+WORK = [0]                # statements interpreted in this run (all Interp instances)
+WORK_CAP = [3000000]     # a run that needs more than this is a path explosion: exit 2, not a hang
 GENERATOR_RUNS = [0]      # how many generator bodies were interpreted (checks that read loop shapes
                           # consult it: a loop split between a generator and its consumer has none)
 
@@ -752,6 +756,13 @@ class Interp:
 
     def exec_stmt(self, node, st):
         self.stats['stmts'] += 1
+        WORK[0] += 1
+        if WORK[0] > WORK_CAP[0]:
+            raise Unsupported('analysis budget of %d interpreted statements exceeded (path '
+                              'explosion in %s)' % (WORK_CAP[0], self.cur.qualname))
+        if WORK[0] % 64 == 0 and _time.monotonic() > DEADLINE[0]:
+            raise Unsupported('analysis time budget exceeded (path or term explosion in %s)'
+                              % self.cur.qualname)
         meth = getattr(self, 'st_' + type(node).__name__, None)
         if meth is None:
             raise Unsupported('statement %s at %s' % (type(node).__name__, self.cur.loc(node)))
@@ -1438,6 +1449,9 @@ class Interp:
         if st.raised:
             yield None, st
             return
+        if _time.monotonic() > DEADLINE[0]:
+            raise Unsupported('analysis time budget exceeded (path or term explosion in %s)'
+                              % self.cur.qualname)
         meth = getattr(self, 'ev_' + type(node).__name__, None)
         if meth is None:
             raise Unsupported('expression %s at %s' % (type(node).__name__, self.cur.loc(node)))
@@ -3048,6 +3062,16 @@ class Interp:
                 start = int(extra.const_value())
             return [(Tup(tuple(Tup((Sym.const(i + start), x)) for i, x in enumerate(args[0].items)),
                          'list'), st)]
+        if name == 'itertools.count' and len(args) <= 2 and all(isinstance(a, Sym) for a in args):
+            return [(Opaque('count', (args[0] if args else Sym.const(0),
+                                      args[1] if len(args) > 1 else Sym.const(1)), 'list'), st)]
+        is_count = lambda a: isinstance(a, Opaque) and a.label == 'count' and len(a.args) == 2
+        if name == 'zip' and args and any(isinstance(a, Tup) for a in args) and all(
+                self.literal_items(a) is not None or is_count(a) for a in args):
+            n = min(len(self.literal_items(a)) for a in args if not is_count(a))
+            cols = [[a.args[0] + a.args[1] * k for k in range(n)] if is_count(a)
+                    else list(self.literal_items(a))[:n] for a in args]
+            return [(Tup(tuple(Tup(tuple(xs)) for xs in zip(*cols)), 'list'), st)]
         if name == 'zip' and args and all(isinstance(a, Tup) for a in args):
             return [(Tup(tuple(Tup(tuple(xs)) for xs in zip(*[a.items for a in args])), 'list'), st)]
         if name == 'reversed' and len(args) == 1 and isinstance(args[0], Tup):
